@@ -35,6 +35,7 @@ type FilterSpec struct {
 	AppHost      string     `json:"app_host"` // host the browser uses, e.g. app-a.test
 	CallbackPath string     `json:"callback_path"`
 	CallbackPort string     `json:"callback_port,omitempty"` // "", "443"
+	CallbackQuery string    `json:"callback_query,omitempty"` // own query of the redirect URI, e.g. "?tenant=1"
 	ClientID     string     `json:"client_id"`
 	ClientSecret string     `json:"client_secret"`
 	SecretRef    string     `json:"secret_ref,omitempty"` // k8s Secret name instead of inline secret
@@ -91,7 +92,7 @@ func (f *FilterSpec) CallbackURI() string {
 	if f.CallbackPort != "" {
 		h += ":" + f.CallbackPort
 	}
-	return "https://" + h + f.CallbackPath
+	return "https://" + h + f.CallbackPath + f.CallbackQuery
 }
 
 func (f *FilterSpec) CookieName() string {
